@@ -445,6 +445,78 @@ pub fn c05<T: Full>(g: &mut Gen, b: &Budget, out: &mut Sink) {
     }
 }
 
+// ------------------------------------------------------------------ C14
+
+pub struct CountingReader<'a> {
+    pub data: &'a [u8],
+    pub pulled: usize,
+    pub calls: usize,
+}
+impl<'a> borsh::io::Read for CountingReader<'a> {
+    fn read(&mut self, buf: &mut [u8]) -> borsh::io::Result<usize> {
+        self.calls += 1;
+        let n = buf.len().min(self.data.len());
+        buf[..n].copy_from_slice(&self.data[..n]);
+        self.data = &self.data[n..];
+        self.pulled += n;
+        Ok(n)
+    }
+}
+pub struct CountingWriter {
+    pub written: Vec<u8>,
+    pub calls: usize,
+}
+impl borsh::io::Write for CountingWriter {
+    fn write(&mut self, buf: &[u8]) -> borsh::io::Result<usize> {
+        self.calls += 1;
+        self.written.extend_from_slice(buf);
+        Ok(buf.len())
+    }
+    fn flush(&mut self) -> borsh::io::Result<()> {
+        Ok(())
+    }
+}
+
+/// a collection whose element (or key) type occupies no memory: refused both ways, before
+/// anything is read or written
+pub fn c14<T: Full>(g: &mut Gen, b: &Budget, out: &mut Sink) {
+    let ty = T::ty();
+    const ZST: &str = "err invalidData zst";
+    for _ in 0..b.values.min(6) {
+        let v = T::gen(g, 0);
+        let case = format!("enc {} {}", ty, val_of(&v));
+        let (eo, _) = enc_obs(&v);
+        out.case(&case, &eo);
+        out.oracle("C14", eo == ZST, &case, &eo);
+        let mut w = CountingWriter { written: Vec::new(), calls: 0 };
+        let r = guarded(|| borsh::to_writer(&mut w, &v));
+        out.oracle("C14", matches!(r, Ok(Err(_))) && w.written.is_empty(), &case,
+                   &format!("{} bytes reached the writer before the refusal", w.written.len()));
+    }
+    let mut inputs: Vec<Vec<u8>> = vec![
+        vec![],
+        vec![0, 0, 0, 0],
+        vec![1, 0, 0, 0],
+        vec![2, 0, 0, 0, 0, 0],
+        vec![0xff, 0xff, 0xff, 0xff],
+        vec![0xff, 0xff, 0xff, 0xff, 1, 2, 3],
+    ];
+    for _ in 0..4 {
+        let n = g.below(12) as usize;
+        inputs.push(g.bytes(n));
+    }
+    for inp in inputs {
+        let case = format!("fs {} {} {}", MODE, ty, hex(&inp));
+        let (o, _) = fs_obs::<T>(&inp);
+        out.case(&case, &o);
+        out.oracle("C14", o == ZST, &case, &o);
+        let mut r = CountingReader { data: &inp, pulled: 0, calls: 0 };
+        let res = guarded(|| T::deserialize_reader(&mut r));
+        out.oracle("C14", matches!(res, Ok(Err(_))) && r.calls == 0, &case,
+                   &format!("{} read calls ({} bytes) before the refusal", r.calls, r.pulled));
+    }
+}
+
 /// one catalogue entry, type-erased
 pub struct Entry {
     pub name: &'static str,
@@ -463,6 +535,7 @@ pub fn run_prop<T: Full>(prop: &str, g: &mut Gen, b: &Budget, out: &mut Sink) {
         "C03" => c03::<T>(g, b, out),
         "C04" | "C16" | "C07" => c04::<T>(g, b, out),
         "C05" => c05::<T>(g, b, out),
+        "C14" => c14::<T>(g, b, out),
         _ => {}
     }
 }
